@@ -44,6 +44,7 @@ def run_tlc(ctx: Ctx, spec: str, cfg: str, *, workers: int | str | None = None, 
         cmd += ["-depth", str(depth)]
     cmd.append(f"{spec}.tla")
     e = dict(os.environ)
+    os.makedirs(ctx.work, exist_ok=True)
     e["TMPDIR"] = ctx.work
     e["JAVA_TOOL_OPTIONS"] = f"-Djava.io.tmpdir={ctx.work}"
     if env:
